@@ -8,7 +8,7 @@ from metapype.eml import rule as R
 from metapype.model import metapype_io, mp_io
 from metapype.model.node import Node
 
-from vf import snapshot, treegen
+from vf import contentgen, snapshot, treegen
 from vf.runner import Violation, hyp_search
 
 ID = "C11"
@@ -211,10 +211,17 @@ def cases(draw):
         parts.append(st.sampled_from(fx))
     sp = draw(st.one_of(*parts))
     if draw(st.booleans()):
-        # make sure the class the in-place escaping touches is present
+        # make sure the classes an in-place "clean-up" would touch are present: markup characters, entities,
+        # non-breaking / doubled / padding whitespace - on any node, and preferably on nodes with typed content and on titles
         allp = [s for _, s in treegen.spec_nodes(sp)]
-        tgt = allp[draw(st.integers(0, len(allp) - 1))]
-        tgt["c"] = draw(st.sampled_from(["a < b", "x & y", "1 > 0", "<b>&</b>", "R&D <ok>", "&amp; already", "<para>p</para>"]))
+        special = [s for s in allp if s["n"] in ("title", "abstract", "para", "keyword") or
+                   contentgen.describe(R.rules_dict.get(R.node_mappings.get(s["n"], ""), [0, 0, {}])[2]).get("typed")]
+        pool = special if special and draw(st.booleans()) else allp
+        for _ in range(draw(st.integers(1, 3))):
+            tgt = pool[draw(st.integers(0, len(pool) - 1))]
+            tgt["c"] = draw(st.sampled_from(["a < b", "x & y", "1 > 0", "<b>&</b>", "R&D <ok>", "&amp; already", "<para>p</para>",
+                                             "a\xa0b", "two  spaces here", " padded ", "tab\there", "line\nbreak ", " 5", "5 ",
+                                             "1.0\n", " 12:00:00", "2020-01-01 ", "one two three four\xa0five six", "&lt;x&gt;"]))
     ops = draw(st.lists(st.tuples(st.sampled_from(OP_NAMES), st.integers(0, 30)), min_size=3, max_size=12))
     if draw(st.booleans()) and ops:
         ops.append(ops[draw(st.integers(0, len(ops) - 1))])
